@@ -2115,6 +2115,21 @@ impl Element {
     ///    The operation was aborted to avoid a deadlock, but can be retried.
     ///
     pub fn remove_from_file(&self, file: &ArxmlFile) -> Result<(), AutosarDataError> {
+        if self.parent()?.is_none() {
+            // The root element is a part of every file of the model. Removing it from a file is only possible by
+            // removing the file from the model, otherwise the file would remain in the model without any content
+            let model = self.model()?;
+            if file.model()? != model {
+                return Err(AutosarDataError::InvalidFile);
+            }
+            model.remove_file(file);
+            return Ok(());
+        }
+        self.remove_from_file_internal(file)
+    }
+
+    // remove this element and its sub elements from a file - this may be used on the root element by the model
+    pub(crate) fn remove_from_file_internal(&self, file: &ArxmlFile) -> Result<(), AutosarDataError> {
         let parent_splittable = self.parent()?.is_none_or(|p| p.element_type().splittable() != 0);
         if parent_splittable {
             if file.model()? == self.model()? {
